@@ -9,6 +9,7 @@ import ast
 import itertools
 
 from ..index import AnalysisError, walk_own, unparse, short
+from ..index import clone as _clone
 from ..cfg import cfg_of
 from .. import nf, lib
 from . import _c06_common as cm
@@ -476,9 +477,205 @@ def _find_smallest_fold(r, idx, fi, S, env):
     return True
 
 
+class _IndexSet(object):
+    """indices k of range(n) kept by a comprehension `[k for k in range(self.n) if COND]`: axis 'row'/'col'/None and, per value of
+    the cover flag of k, whether k is kept."""
+    def __init__(self, axis, keep):
+        self.axis, self.keep = axis, keep
+
+
+def _index_set(fi, S, env, e, depth=0):
+    """_IndexSet for `range(self.n)` or for a (local bound to a) filter comprehension over it; None when not recognised."""
+    v = _sub(e, env) if not isinstance(e, ast.Name) else e
+    if isinstance(v, ast.Name) and depth < 3:
+        d = cm.deref(fi, v)
+        return None if d is v else _index_set(fi, S, env, d, depth + 1)
+    if nf.match('range(%s.n)' % S, v) is not None:
+        return _IndexSet(None, {True: True, False: True})
+    if isinstance(v, (ast.ListComp, ast.GeneratorExp)) and len(v.generators) == 1 and isinstance(v.generators[0].target, ast.Name) \
+            and cm.is_name(v.elt, v.generators[0].target.id) and nf.match('range(%s.n)' % S, _sub(v.generators[0].iter, env)) is not None:
+        k = v.generators[0].target.id
+        for axis, attr in (('row', 'row_covered'), ('col', 'col_covered')):
+            cell = Cell(fi, env, atoms={'c': '%s.%s[%s]' % (S, attr, k)}, wrong=[], tracked={})
+            try:
+                keep = {flag: all(cell.truth(_sub(c, env), {'c': flag}) for c in v.generators[0].ifs) for flag in (True, False)}
+                return _IndexSet(axis if v.generators[0].ifs else None, keep)
+            except AnalysisError:
+                continue
+    return None
+
+
+def _find_smallest_sets(r, idx, fi, S, env):
+    """__find_smallest over index lists: `cells = [C[i][j] for i in ROWS for j in COLS if ...]` (cross product; zip is a slip),
+    or a loop over the rows with a per-row minimum folded into a running minimum (a plain assignment is a slip)."""
+    label = 'Munkres.__find_smallest'
+    construct = label + ': candidate cells'
+    rets = lib.returns_of(fi.node)
+    if len(rets) != 1:
+        return False
+    top_for = [x for x in fi.node.body if isinstance(x, ast.For)]
+    # ---------------------------------------------------------- (a) one fold over a comprehension of cells
+    if not top_for and isinstance(rets[0].value, ast.Call):
+        call = rets[0].value
+        fold = {'min': 'min', 'amin': 'min', 'max': 'max', 'amax': 'max'}.get(nf.callee_name(call))
+        if fold is None or not call.args:
+            return False
+        a = call.args[0]
+        parts = [a.left, a.right] if isinstance(a, ast.BinOp) and isinstance(a.op, ast.Add) else [a]
+        gens = [g for g in (_gen_of(fi, x) for x in parts) if g is not None]
+        if len(gens) != 1:
+            return False
+        cells = gens[0]
+        gs = cells.generators
+        pairs = None
+        if len(gs) == 1 and isinstance(gs[0].target, ast.Tuple) and len(gs[0].target.elts) == 2 \
+                and all(isinstance(t, ast.Name) for t in gs[0].target.elts) and isinstance(gs[0].iter, ast.Call) \
+                and nf.callee_name(gs[0].iter) in ('zip', 'product') and len(gs[0].iter.args) == 2:
+            i, j = [t.id for t in gs[0].target.elts]
+            A, B = (_index_set(fi, S, env, x) for x in gs[0].iter.args)
+            pairs = nf.callee_name(gs[0].iter)
+            conds = list(gs[0].ifs)
+        elif len(gs) == 2 and all(isinstance(g.target, ast.Name) for g in gs):
+            i, j = gs[0].target.id, gs[1].target.id
+            A, B = _index_set(fi, S, env, gs[0].iter), _index_set(fi, S, env, gs[1].iter)
+            conds = list(gs[0].ifs) + list(gs[1].ifs)
+        else:
+            return False
+        if A is None or B is None:
+            return False
+        if A.axis == 'col' or B.axis == 'row':
+            return False
+        r.ok(label + ': loop range', 'index sets drawn from range(self.n)', fi.loc)
+        if fold == 'max':
+            r.violation(construct, 'the fold keeps the *largest* candidate (`%s`)' % short(call, 80), fi.loc)
+            return True
+        if nf.match('%s.C[%s][%s]' % (S, i, j), _sub(cells.elt, env)) is None:
+            r.undecided(construct, 'cell expression `%s`' % short(cells.elt), fi.loc)
+            return True
+        if pairs == 'zip':
+            r.violation(construct, 'the candidate cells are `zip(%s)`: the k-th uncovered row is paired with the k-th uncovered column only, '
+                        'so just a diagonal of the uncovered block is inspected instead of every cell with uncovered row AND uncovered '
+                        'column (cross product); the value subtracted in step 6 is then not the smallest uncovered value and entries '
+                        'become negative / no new zero appears' % ', '.join(short(x) for x in gs[0].iter.args), fi.loc,
+                        expected='for i in rows for j in cols (cross product)', found=short(gs[0].iter))
+            return True
+        cell = Cell(fi, env, atoms={'rc': '%s.row_covered[%s]' % (S, i), 'cc': '%s.col_covered[%s]' % (S, j),
+                                    'nd': '%s.C[%s][%s] is not DISALLOWED' % (S, i, j)}, wrong=[], tracked={})
+        bad = False
+        for rc in (True, False):
+            for cc in (True, False):
+                taken = A.keep[rc] and B.keep[cc] and all(cell.truth(_sub(c, env), {'rc': rc, 'cc': cc, 'nd': True}) for c in conds)
+                if taken != ((not rc) and (not cc)):
+                    bad = True
+                    r.violation(construct, 'a cell with row %scovered and column %scovered %s the minimum; step 6 needs the smallest value among '
+                                'cells whose row AND column are both uncovered' % ('' if rc else 'un', '' if cc else 'un',
+                                                                                   'enters' if taken else 'is ignored for'), fi.loc)
+        if not bad:
+            r.ok(construct, 'minimum over the cross product of uncovered rows and uncovered columns', fi.loc)
+        return True
+    # ---------------------------------------------------------- (b) a loop over rows folding per-row minima
+    if len(top_for) == 1 and isinstance(rets[0].value, ast.Name) and isinstance(top_for[0].target, ast.Name) \
+            and not any(isinstance(x, ast.For) for x in ast.walk(top_for[0]) if x is not top_for[0]):
+        lp = top_for[0]
+        mv, i = rets[0].value.id, lp.target.id
+        A = _index_set(fi, S, env, lp.iter)
+        if A is None or A.axis == 'col':
+            return False
+        body = cm.guard_clause_nesting(lp.body)
+        paths = nf.decision_paths(body, keep_locals=(mv,))
+        r.ok(label + ': loop range', 'rows drawn from range(self.n)', lib.loc(fi, lp))
+        rc_p = nf.pat('%s.row_covered[%s]' % (S, i))
+        verdicts = []
+        for p in paths:
+            rc_val, other = None, []
+            for g in p.guards:
+                neg = isinstance(g, ast.UnaryOp) and isinstance(g.op, ast.Not)
+                core = g.operand if neg else g
+                if nf.Matcher().match(rc_p, core) is not None:
+                    rc_val = not neg
+                else:
+                    other.append(g)
+            sets = [e for e in p.effects if isinstance(e, ast.Assign) and len(e.targets) == 1 and cm.is_name(e.targets[0], mv)]
+            if not sets:
+                verdicts.append((rc_val, None, None, other))
+                continue
+            v = sets[-1].value
+            comps = [n for n in ast.walk(v) if isinstance(n, (ast.ListComp, ast.GeneratorExp))]
+            verdicts.append((rc_val, v, comps, other))
+        bad = False
+        seen_fold = False
+        for rc_val, v, comps, other in verdicts:
+            if v is None:
+                continue
+            row_in = A.keep[rc_val] if rc_val is not None else (A.keep[False] and A.axis == 'row')
+            if rc_val is True or (rc_val is None and A.axis != 'row'):
+                bad = True
+                r.violation(construct, 'the running minimum is updated from a row that is %s' % (
+                    'covered' if rc_val else 'not tested for being uncovered'), lib.loc(fi, lp))
+                continue
+            if not comps:
+                r.undecided(construct, 'row values `%s` not recognised' % short(v), lib.loc(fi, lp))
+                return True
+            lc = comps[0]
+            g0 = lc.generators[0]
+            if len(lc.generators) != 1 or not isinstance(g0.target, ast.Name):
+                r.undecided(construct, 'row values `%s` not recognised' % short(lc), lib.loc(fi, lp))
+                return True
+            j = g0.target.id
+            B = _index_set(fi, S, env, g0.iter)
+            if B is None or B.axis == 'row' or nf.match('%s.C[%s][%s]' % (S, i, j), _sub(lc.elt, env)) is None:
+                r.undecided(construct, 'row values `%s` not recognised' % short(lc), lib.loc(fi, lp))
+                return True
+            cell = Cell(fi, env, atoms={'cc': '%s.col_covered[%s]' % (S, j), 'nd': '%s.C[%s][%s] is not DISALLOWED' % (S, i, j)},
+                        wrong=[], tracked={})
+            for cc in (True, False):
+                taken = B.keep[cc] and all(cell.truth(_sub(c, env), {'cc': cc, 'nd': True}) for c in g0.ifs)
+                if taken != (not cc):
+                    bad = True
+                    r.violation(construct, 'a cell in a%s column %s the per-row minimum' % (' covered' if cc else 'n uncovered',
+                                                                                         'enters' if taken else 'is ignored for'), lib.loc(fi, lp))
+            # the fold
+            uses_old = any(cm.is_name(n, mv) for n in ast.walk(v))
+            cmp_guard = None
+            for g in other:
+                if isinstance(g, ast.Compare) and len(g.ops) == 1 and isinstance(g.ops[0], (ast.Lt, ast.LtE)):
+                    if cm.is_name(g.comparators[0], mv) and not any(cm.is_name(n, mv) for n in ast.walk(g.left)):
+                        cmp_guard = 'min'
+                    elif cm.is_name(g.left, mv):
+                        cmp_guard = 'max'
+            outer = nf.callee_name(v) if isinstance(v, ast.Call) else None
+            if outer in ('max', 'amax') or cmp_guard == 'max':
+                bad = True
+                r.violation(construct, 'the larger of the running value and the row minimum is kept (`%s`)' % short(v, 80), lib.loc(fi, lp))
+            elif (outer in ('min', 'amin') and uses_old) or cmp_guard == 'min':
+                seen_fold = True
+            elif not uses_old:
+                bad = True
+                r.violation(construct, 'inside the loop over the rows the running minimum is *assigned* the minimum of the current row (`%s = %s`) '
+                            'instead of being folded with it: the function returns the minimum of the last uncovered row, not the smallest '
+                            'uncovered value of the matrix, so step 6 subtracts too much (negative entries) or creates no zero'
+                            % (mv, short(v, 60)), lib.loc(fi, lp), expected='%s = min(%s, min(row values))' % (mv, mv), found=short(v, 60))
+            else:
+                r.undecided(construct, 'update `%s = %s` not recognised as a minimum fold' % (mv, short(v)), lib.loc(fi, lp))
+                return True
+        if not bad and seen_fold:
+            r.ok(construct, 'minimum folded over the uncovered rows of their minima over uncovered columns', lib.loc(fi, lp))
+        elif not bad:
+            r.undecided(construct, 'no update of the running minimum found', lib.loc(fi, lp))
+        return True
+    return False
+
+
 def _find_smallest(r, idx, fi):
     S = fi.params[0]
     env = _inline(fi)
+    try:
+        _nest(fi, 2)
+        nested = True
+    except AnalysisError:
+        nested = False
+    if not nested and _find_smallest_sets(r, idx, fi, S, env):
+        return
     if not any(isinstance(x, ast.For) for x in fi.node.body) and _find_smallest_fold(r, idx, fi, S, env):
         return
     lo, li = _nest(fi, 2)
@@ -992,67 +1189,7 @@ def _step5(r, idx, fi, cp):
             cntv = c.args[1].id if isinstance(c.args[1], ast.Name) else None
     if pathv is None or cntv is None:
         raise AnalysisError('__step5: __convert_path(path, count) not found')
-    stores = [s for s in walk_own(fi.node) if isinstance(s, ast.Assign) and len(s.targets) == 1 and isinstance(s.targets[0], ast.Subscript)
-              and isinstance(s.targets[0].value, ast.Subscript) and cm.is_name(s.targets[0].value.value, pathv)]
-    seen = {}
-    for s in stores:
-        t = s.targets[0]
-        k = (unparse(t.value.slice), nf.const_value(t.slice, None))
-        seen.setdefault(k, []).append(nf.canon(s.value))
-    construct = label + ': alternating path'
-    problems = []
-
-    def has(slot, pats):
-        for v in seen.get(slot, []):
-            if any(nf.match(p, v) is not None for p in pats):
-                return True
-        return False
-    definite = []
-    if not (has((cntv, 0), ['%s.Z0_r' % S]) and has((cntv, 1), ['%s.Z0_c' % S])):
-        problems.append('the path does not start at Z0 = (Z0_r, Z0_c)')
-        if has((cntv, 0), ['%s.Z0_c' % S]) or has((cntv, 1), ['%s.Z0_r' % S]):
-            definite.append('row and column of Z0 are exchanged at the start of the path')
-    star_row = '%s.__find_star_in_col(%s[%s][1])' % (S, pathv, cntv)
-    prime_col = '%s.__find_prime_in_row(%s[%s][0])' % (S, pathv, cntv)
-    rowv = [k for k, v in lib.local_env(fi.node).items() if nf.match(star_row, v) is not None]
-    colv = [k for k, v in lib.local_env(fi.node).items() if nf.match(prime_col, v) is not None]
-    for n in walk_own(fi.node):
-        if isinstance(n, ast.Assign) and len(n.targets) == 1 and isinstance(n.targets[0], ast.Name):
-            if nf.match(star_row, n.value) is not None:
-                rowv = [n.targets[0].id]
-            if nf.match(prime_col, n.value) is not None:
-                colv = [n.targets[0].id]
-    if not rowv:
-        problems.append('the starred zero is not searched in the *column* of the last path element (__find_star_in_col(path[count][1]))')
-    if not colv:
-        problems.append('the primed zero is not searched in the *row* of the last path element (__find_prime_in_row(path[count][0]))')
-    if rowv and not (has((cntv, 0), [rowv[0]]) and has((cntv, 1), ['%s[%s - 1][1]' % (pathv, cntv)])):
-        problems.append('the starred zero is not appended as (its row, same column)')
-    if colv and not (has((cntv, 0), ['%s[%s - 1][0]' % (pathv, cntv)]) and has((cntv, 1), [colv[0]])):
-        problems.append('the primed zero is not appended as (same row, its column)')
-    for n in walk_own(fi.node):
-        if isinstance(n, ast.Call) and cm.is_self_attr(n.func, S) and len(n.args) == 1:
-            if n.func.attr == '__find_star_in_col' and nf.match('%s[%s][0]' % (pathv, cntv), n.args[0]) is not None:
-                definite.append('the star is searched in the column numbered by the *row* of the last path element')
-            if n.func.attr == '__find_prime_in_row' and nf.match('%s[%s][1]' % (pathv, cntv), n.args[0]) is not None:
-                definite.append('the prime is searched in the row numbered by the *column* of the last path element')
-            if n.func.attr == '__find_star_in_row' and nf.match('%s[%s][_K]' % (pathv, cntv), n.args[0]) is not None:
-                definite.append('the next star is searched along the row instead of the column of the last path element')
-            if n.func.attr == '__find_prime_in_col' or (n.func.attr == '__find_star_in_col' and colv == [] and rowv == []):
-                pass
-    if rowv and has((cntv, 1), [rowv[0]]) and not has((cntv, 0), [rowv[0]]):
-        definite.append('the row of the starred zero is stored in the column slot of the path')
-    if colv and has((cntv, 0), [colv[0]]) and not has((cntv, 1), [colv[0]]):
-        definite.append('the column of the primed zero is stored in the row slot of the path')
-    if rowv and has((cntv, 1), ['%s[%s - 1][0]' % (pathv, cntv)]) and not has((cntv, 1), ['%s[%s - 1][1]' % (pathv, cntv)]):
-        definite.append('the starred zero inherits the row instead of the column of its predecessor')
-    if definite:
-        r.violation(construct, '; '.join(definite) + ': the series Z0, Z1 (star in Z0\'s column), Z2 (prime in Z1\'s row), ... is broken, so '
-                    'flipping it does not yield a matching', fi.loc)
-    elif problems:
-        r.undecided(construct, '; '.join(problems), fi.loc)
-    else:
-        r.ok(construct, 'Z0, star in its column, prime in that row, ... until a column without star', fi.loc)
+    _step5_path(r, fi, S, pathv, cntv)
     # __convert_path
     S2 = cp.params[0]
     label = 'Munkres.__convert_path'
@@ -1089,8 +1226,254 @@ def _step5(r, idx, fi, cp):
 
 
 # ------------------------------------------------------------------ scans and resets
+
+
+def _step5_path(r, fi, S, pathv, cntv):
+    """The alternating series of step 5, replayed symbolically over one iteration of its loop.
+
+    Entry k of the series is (row, column).  Reference: entry 0 = (Z0_r, Z0_c) with the counter at 0; in every iteration, with
+    `last` = the last entry (a primed zero): star_row = __find_star_in_col(last.column); stop if < 0; entry +1 = (star_row,
+    last.column); entry +2 = (star_row, __find_prime_in_row(star_row)); the counter advances by 2.  Index expressions
+    (count, count+1, count-1 after an increment, ...) are normalised to offsets from the counter at the start of the
+    iteration, and reads of entries written earlier in the iteration are replaced by what was written."""
+    construct = 'Munkres.__step5: alternating path'
+    loops = [x for x in fi.node.body if isinstance(x, ast.While)]
+    if len(loops) != 1:
+        raise AnalysisError('__step5: expected one while loop')
+    w = loops[0]
+    env0 = {}
+    t = nf.canon(w.test)
+    if isinstance(t, ast.UnaryOp) and isinstance(t.op, ast.Not) and isinstance(t.operand, ast.Name):
+        env0[t.operand.id] = ast.Constant(value=False)
+    elif not (isinstance(t, ast.Constant) and t.value is True):
+        raise AnalysisError('__step5: loop condition `%s` not recognised' % short(w.test))
+    pv = cm.deref(fi, ast.Name(id=pathv, ctx=ast.Load()))
+    if not cm.is_self_attr(pv, S, 'path') and pathv != 'path':
+        pass
+
+    def offset(e, delta):
+        """offset of an index expression relative to the counter at iteration start, or ('abs', k) for a constant"""
+        e = nf.canon(e)
+        if isinstance(e, ast.Constant) and isinstance(e.value, int):
+            return ('abs', e.value)
+        if cm.is_name(e, cntv):
+            return delta
+        if isinstance(e, ast.BinOp) and isinstance(e.op, (ast.Add, ast.Sub)) and cm.is_name(e.left, cntv) \
+                and isinstance(e.right, ast.Constant) and isinstance(e.right.value, int):
+            return delta + (e.right.value if isinstance(e.op, ast.Add) else -e.right.value)
+        if isinstance(e, ast.BinOp) and isinstance(e.op, ast.Add) and cm.is_name(e.right, cntv) and isinstance(e.left, ast.Constant):
+            return delta + e.left.value
+        return None
+
+    def is_path(e):
+        return cm.is_name(e, pathv) or cm.is_self_attr(e, S, 'path')
+
+    class Reads(ast.NodeTransformer):
+        """path[IDX][c] -> written value (if written in this iteration) or the marker READ_<offset>_<c>"""
+        def __init__(self, delta, written):
+            self.delta, self.written = delta, written
+
+        def visit_Subscript(self, node):
+            if isinstance(node.value, ast.Subscript) and is_path(node.value.value) and isinstance(node.slice, ast.Constant):
+                off = offset(node.value.slice, self.delta)
+                if off is None:
+                    raise AnalysisError('__step5: path index `%s` not recognised' % short(node.value.slice))
+                key = (off, node.slice.value)
+                if key in self.written:
+                    from ..index import clone
+                    return clone(self.written[key])
+                return ast.Name(id='READ_%s_%s' % (str(off).replace('-', 'm').replace("('abs', ", 'abs').replace(')', ''), node.slice.value),
+                                ctx=ast.Load())
+            self.generic_visit(node)
+            return node
+    # ---- start of the series (statements before the loop)
+    init_cnt = [n.value for n in fi.node.body if isinstance(n, ast.Assign) and len(n.targets) == 1 and cm.is_name(n.targets[0], cntv)]
+    start_ok = len(init_cnt) == 1 and nf.const_value(init_cnt[0], None) == 0
+    pre_written = {}
+    for n in fi.node.body:
+        if n is w:
+            break
+        if isinstance(n, ast.Assign) and len(n.targets) == 1 and isinstance(n.targets[0], ast.Subscript) \
+                and isinstance(n.targets[0].value, ast.Subscript) and is_path(n.targets[0].value.value):
+            off = offset(n.targets[0].value.slice, 0)
+            off = 0 if off == ('abs', 0) else off
+            pre_written[(off, nf.const_value(n.targets[0].slice, None))] = nf.canon(n.value)
+    z0 = (pre_written.get((0, 0)), pre_written.get((0, 1)))
+    definite, problems = [], []
+    if not start_ok:
+        problems.append('the counter does not start at 0')
+    if not (z0[0] is not None and cm.is_self_attr(z0[0], S, 'Z0_r') and cm.is_self_attr(z0[1], S, 'Z0_c')):
+        if z0[0] is not None and cm.is_self_attr(z0[0], S, 'Z0_c') and cm.is_self_attr(z0[1], S, 'Z0_r'):
+            definite.append('row and column of Z0 are exchanged at the start of the path')
+        else:
+            problems.append('the path does not start at Z0 = (Z0_r, Z0_c)')
+    # ---- one iteration
+    body = cm.guard_clause_nesting(w.body)
+    flagv = set(env0)
+    kept = {n.id for x in w.body for n in ast.walk(x) if isinstance(n, ast.Name) and isinstance(n.ctx, ast.Store)} - flagv
+    kept.add(cntv)
+    paths = [p for p in nf.decision_paths(body, env=env0, keep_locals=tuple(sorted(kept)))
+             if not any(isinstance(g, ast.Constant) and not g.value for g in p.guards)]
+    star_p = nf.pat('%s.__find_star_in_col(_A)' % S)
+    prime_p = nf.pat('%s.__find_prime_in_row(_A)' % S)
+    extended = 0
+    for p in paths:
+        delta, written = 0, {}
+        order = []
+        loc_env = {}
+        try:
+            for e in p.effects:
+                if isinstance(e, ast.Assign) and len(e.targets) == 1 and isinstance(e.targets[0], ast.Name) \
+                        and e.targets[0].id in kept and e.targets[0].id != cntv:
+                    loc_env[e.targets[0].id] = nf.canon(nf.subst(Reads(delta, written).visit(_clone(e.value)), loc_env))
+                    continue
+                if isinstance(e, ast.Assign) and len(e.targets) == 1 and cm.is_name(e.targets[0], cntv):
+                    v = nf.canon(e.value)
+                    off = offset(v, delta)
+                    if off is None or isinstance(off, tuple):
+                        raise AnalysisError('__step5: counter update `%s` not recognised' % short(e))
+                    delta = off
+                elif isinstance(e, ast.Assign) and len(e.targets) == 1 and isinstance(e.targets[0], ast.Subscript) \
+                        and isinstance(e.targets[0].value, ast.Subscript) and is_path(e.targets[0].value.value):
+                    off = offset(e.targets[0].value.slice, delta)
+                    c = nf.const_value(e.targets[0].slice, None)
+                    if off is None or c not in (0, 1):
+                        raise AnalysisError('__step5: store `%s` not recognised' % short(e))
+                    written[(off, c)] = nf.canon(nf.subst(Reads(delta, written).visit(_clone(e.value)), loc_env))
+                    order.append((off, c))
+        except AnalysisError as ex:
+            problems.append(str(ex))
+            continue
+        if not written:
+            continue        # the terminating path (no star in the column): nothing is appended
+        extended += 1
+        guards = [nf.canon(nf.subst(Reads(0, {}).visit(_clone(g)), loc_env)) for g in p.guards]
+        last_col = 'READ_0_1'
+        star_row = nf.pat('%s.__find_star_in_col(%s)' % (S, last_col))
+        e10, e11, e20, e21 = written.get((1, 0)), written.get((1, 1)), written.get((2, 0)), written.get((2, 1))
+        if delta != 2 or None in (e10, e11, e20, e21):
+            problems.append('an iteration does not append exactly two entries (offsets written: %s, counter advances by %s)'
+                            % (sorted(written), delta))
+            continue
+        # entry +1 : (star_row, column of the last primed zero)
+        m10 = nf.Matcher().match(star_p, e10)
+        if m10 is None:
+            problems.append('the row of the starred zero is `%s`, not the result of __find_star_in_col' % short(e10))
+        elif not cm.is_name(m10['_A'], last_col):
+            if cm.is_name(m10['_A'], 'READ_0_0'):
+                definite.append('the star is searched in the column numbered by the *row* of the last path element')
+            else:
+                problems.append('the star is searched in column `%s`' % short(m10['_A']))
+        if cm.is_name(e11, last_col):
+            pass
+        elif cm.is_self_attr(e11, S, 'Z0_c'):
+            definite.append('the column of every starred zero is written as self.Z0_c instead of the column of the last primed zero of the '
+                            'series (path[count][1]): the two agree only for the first starred zero, so from the second augmentation '
+                            'step on the wrong cell is unstarred when the path is flipped')
+        elif cm.is_name(e11, 'READ_0_0'):
+            definite.append('the starred zero inherits the row instead of the column of its predecessor')
+        else:
+            problems.append('the column of the starred zero is `%s`' % short(e11))
+        # entry +2 : (row of entry +1, prime in that row)
+        if not nf.equal(e20, e10):
+            if nf.equal(e20, e11):
+                definite.append('the primed zero inherits the column instead of the row of the starred zero')
+            else:
+                problems.append('the row of the next primed zero is `%s`, not the row of the starred zero' % short(e20))
+        m21 = nf.Matcher().match(prime_p, e21)
+        if m21 is None:
+            problems.append('the column of the next primed zero is `%s`, not the result of __find_prime_in_row' % short(e21))
+        elif not nf.equal(m21['_A'], e10):
+            if nf.equal(m21['_A'], e11):
+                definite.append('the prime is searched in the row numbered by the *column* of the starred zero')
+            else:
+                problems.append('the prime is searched in row `%s`' % short(m21['_A']))
+        # the iteration runs only when a star was found
+        found_guard = any(nf.match('0 <= %s.__find_star_in_col(_A)' % S, g) is not None for g in guards)
+        if not found_guard:
+            problems.append('the entries are appended without the test "a starred zero was found" (guards: %s)' % [short(g) for g in guards])
+    if not extended:
+        problems.append('no path of the loop body appends to the series')
+    if definite:
+        r.violation(construct, '; '.join(sorted(set(definite))) + ': the series Z0, Z1 (star in Z0\'s column), Z2 (prime in Z1\'s row), ... is '
+                    'broken, so flipping it does not yield a matching', fi.loc,
+                    expected='starred zero = (star_row, column of the last primed zero); primed zero = (star_row, __find_prime_in_row(star_row))')
+    elif problems:
+        r.undecided(construct, '; '.join(problems[:3]), fi.loc)
+    else:
+        r.ok(construct, 'Z0, star in its column, prime in that row, ... until a column without star', fi.loc)
+
+
+def _simplify_tuple_index(e):
+    """(a, b)[0] -> a   (recursively, on a clone)"""
+    from ..index import clone
+
+    class T(ast.NodeTransformer):
+        def visit_Subscript(self, node):
+            self.generic_visit(node)
+            if isinstance(node.value, ast.Tuple) and isinstance(node.slice, ast.Constant) and isinstance(node.slice.value, int) \
+                    and -len(node.value.elts) <= node.slice.value < len(node.value.elts):
+                return node.value.elts[node.slice.value]
+            return node
+    return T().visit(clone(e))
+
+
+def _compose_next(outer_fi, meth, pre):
+    """`return self.H(args)[c]` where H is `return next((X for X in CELLS if COND), DEFAULT)` and CELLS is bound to a generator
+    `(T(k) for k in RANGE)`  ->  the equivalent `next((T(k)[c] for k in RANGE if COND[X := T(k)]), DEFAULT[c])`; None otherwise."""
+    sr = _single_return(outer_fi)
+    if sr is None:
+        return None
+    e = nf.subst(sr.value, pre)
+    comp = None
+    if isinstance(e, ast.Subscript) and isinstance(e.slice, ast.Constant) and isinstance(e.slice.value, int):
+        comp, e = e.slice.value, e.value
+    S = outer_fi.params[0]
+    if not (isinstance(e, ast.Call) and cm.is_self_attr(e.func, S) and e.func.attr in meth and not e.keywords):
+        return None
+    callee = meth[e.func.attr]
+    cr = _single_return(callee)
+    if cr is None or not cm.is_call_to(cr.value, 'next') or not cr.value.args:
+        return None
+    cp = callee.params if callee.is_static else callee.params[1:]
+    if len(cp) != len(e.args):
+        return None
+    bind = dict(zip(cp, e.args))
+    if not callee.is_static and callee.params and callee.params[0] != S:
+        bind[callee.params[0]] = ast.Name(id=S, ctx=ast.Load())
+    gen = cr.value.args[0]
+    if not isinstance(gen, (ast.GeneratorExp, ast.ListComp)) or len(gen.generators) != 1 or not isinstance(gen.generators[0].target, ast.Name):
+        return None
+    X = gen.generators[0].target.id
+    src = nf.subst(gen.generators[0].iter, bind)
+    conds = [nf.subst(c, {k_: v_ for k_, v_ in bind.items() if k_ != X}) for c in gen.generators[0].ifs]
+    elt = nf.subst(gen.elt, {k_: v_ for k_, v_ in bind.items() if k_ != X})
+    dflt = nf.subst(cr.value.args[1], bind) if len(cr.value.args) > 1 else None
+    if isinstance(src, (ast.GeneratorExp, ast.ListComp)) and len(src.generators) == 1 and not src.generators[0].ifs:
+        T_ = src.elt
+        conds = [nf.subst(c, {X: T_}) for c in conds]
+        elt = nf.subst(elt, {X: T_})
+        target, it = src.generators[0].target, src.generators[0].iter
+    else:
+        target, it = gen.generators[0].target, src
+    if comp is not None:
+        idx_ = ast.Constant(value=comp)
+        elt = ast.Subscript(value=elt, slice=idx_, ctx=ast.Load())
+        dflt = ast.Subscript(value=dflt, slice=idx_, ctx=ast.Load()) if dflt is not None else None
+    elt = _simplify_tuple_index(elt)
+    conds = [_simplify_tuple_index(c) for c in conds]
+    dflt = _simplify_tuple_index(dflt) if dflt is not None else None
+    new = ast.Call(func=ast.Name(id='next', ctx=ast.Load()),
+                   args=[ast.GeneratorExp(elt=elt, generators=[ast.comprehension(target=target, iter=it, ifs=conds, is_async=0)])]
+                   + ([dflt] if dflt is not None else []), keywords=[])
+    ast.copy_location(new, sr)
+    ast.fix_missing_locations(new)
+    return new, sr, callee
+
+
 def _scans(r, idx, meth):
     specs = [('__find_star_in_row', 'row', 1, 'star'), ('__find_star_in_col', 'col', 1, 'star'), ('__find_prime_in_row', 'row', 2, 'prime')]
+    reviewed_helpers = []
     for name, axis, mark, word in specs:
         if name not in meth:
             raise AnalysisError('Munkres.%s not found' % name)
@@ -1145,11 +1528,18 @@ def _scans(r, idx, meth):
             fi_body_for = None
         label = 'Munkres.%s' % name
         sr = _single_return(fi)
-        if sr is not None and cm.is_call_to(sr.value, 'next') and sr.value.args and _gen_of(fi, sr.value.args[0]) is not None \
+        nx = sr.value if sr is not None else None
+        composed = _compose_next(outer_fi, meth, pre)
+        if composed is not None:
+            nx, sr, used_helper = composed
+            fi = outer_fi
+            env = dict(_inline(outer_fi))
+            reviewed_helpers.append(used_helper)
+        if sr is not None and cm.is_call_to(nx, 'next') and nx.args and _gen_of(fi, nx.args[0]) is not None \
                 and not any(isinstance(x, ast.For) for x in fi.node.body):
             # first match of a generator, default when there is none  ==  the search loop with break
-            gen = _gen_of(fi, sr.value.args[0])
-            dflt = sr.value.args[1] if len(sr.value.args) > 1 else None
+            gen = _gen_of(fi, nx.args[0])
+            dflt = nx.args[1] if len(nx.args) > 1 else None
             if len(gen.generators) != 1 or not isinstance(gen.generators[0].target, ast.Name):
                 raise AnalysisError('%s: generator `%s` not recognised' % (name, short(gen)))
             g0 = gen.generators[0]
@@ -1222,6 +1612,14 @@ def _scans(r, idx, meth):
         else:
             r.violation(construct, 'the scan %s' % ('does not report the index of the %s it finds' % word if not found else
                                                    'reports / stops at a cell that is not a %s' % word), fi.loc)
+    # a scan helper that was analysed in full through every one of its call sites is reviewed for the engine's
+    # "un-inlined helper" policy (its whole body is the one `next(...)` expression that was composed above)
+    finder_names = {x[0] for x in specs}
+    for h in reviewed_helpers:
+        callers = {m for m, f_ in meth.items() for c in walk_own(f_.node)
+                   if isinstance(c, ast.Call) and isinstance(c.func, ast.Attribute) and c.func.attr == h.name}
+        if callers <= finder_names and h.qualname in (getattr(idx, 'unreviewed', []) or []):
+            idx.unreviewed.remove(h.qualname)
     # __find_a_zero: the cell test
     fi = meth.get('__find_a_zero')
     if fi is None:
